@@ -357,20 +357,19 @@ pub fn run() {
       coercions.fetch_add(1, Ordering::Relaxed);
       let got = ft.coerced(v);
       // reference: the value itself, a singleton wrap, a singleton unwrap, or null - conformance decided on the value
+      // (a list type as target is no exception: the wrap is tried when the value conforms to the item type, the unwrap when
+      // the only item of the value conforms to the target)
+      let wrap_conforms = matches!(target, Ty::List(inner) if value_conforms(v, inner));
+      let unwrapped: Option<Value> = match v {
+        Value::List(items) if items.len() == 1 && value_conforms(&items.as_vec()[0], target) => Some(items.as_vec()[0].clone()),
+        _ => None,
+      };
       let expected: Value = if value_conforms(v, target) {
         v.clone()
-      } else if let Ty::List(inner) = target {
-        if value_conforms(v, inner) {
-          Value::List(dmntk_feel::values::Values::new(vec![v.clone()]))
-        } else {
-          Value::Null(None)
-        }
-      } else if let Value::List(items) = v {
-        if items.len() == 1 && value_conforms(&items.as_vec()[0], target) {
-          items.as_vec()[0].clone()
-        } else {
-          Value::Null(None)
-        }
+      } else if wrap_conforms {
+        Value::List(dmntk_feel::values::Values::new(vec![v.clone()]))
+      } else if let Some(u) = unwrapped {
+        u
       } else {
         Value::Null(None)
       };
